@@ -238,8 +238,7 @@ def run_stream(pid, st, tier, seed, opsin=None, label=None):
         return res
     res["stats"] = json.load(open(stats))
     if st.get("kmodel"):
-        with open(ops) as fin, open(model, "w") as fout:
-            mrc, mo, mdt = run([KMODEL, st["kmodel"]], stdin=fin, stdout=fout, timeout=3600)
+        mrc, mdt = run_kmodel(st["kmodel"], ops, model)
         res["model_wall_s"] = round(mdt, 2)
         if mrc != 0:
             res["error"] = f"kmodel {st['kmodel']} failed rc={mrc}"
@@ -261,6 +260,40 @@ def run_stream(pid, st, tier, seed, opsin=None, label=None):
             res["error"] = f"line count mismatch ops={nops} impl/model compared={n} model={nmod}"
     _cleanup(base)
     return res
+
+
+def run_kmodel(stream, ops, model, timeout=3600):
+    """Feed the scenario lines to the compiled Lean driver.  Every driver is a pure function of ONE line, so the
+    file is cut into contiguous shards run by parallel kmodel processes and the outputs are concatenated in order."""
+    t0 = time.time()
+    lines = open(ops).read().split("\n")
+    if lines and lines[-1] == "":
+        lines.pop()
+    k = max(1, min(int(os.environ.get("VERIF_KMODEL_PAR", "6")), len(lines) // 100))
+    per = (len(lines) + k - 1) // k if lines else 0
+    procs = []
+    for i in range(k):
+        part = lines[i * per:(i + 1) * per]
+        pin, pout = f"{model}.in{i}", f"{model}.out{i}"
+        with open(pin, "w") as f:
+            f.write("".join(l + "\n" for l in part))
+        fin, fout = open(pin), open(pout, "w")
+        procs.append((subprocess.Popen([KMODEL, stream], stdin=fin, stdout=fout, stderr=subprocess.DEVNULL), fin, fout, pout))
+    rc = 0
+    for pr, fin, fout, _ in procs:
+        try:
+            r = pr.wait(timeout=max(1, timeout - (time.time() - t0)))
+        except subprocess.TimeoutExpired:
+            pr.kill()
+            r = 124
+        fin.close()
+        fout.close()
+        rc = rc or r
+    with open(model, "w") as out:
+        for _, _, _, pout in procs:
+            with open(pout) as f:
+                shutil.copyfileobj(f, out)
+    return rc, time.time() - t0
 
 
 def _cleanup(base):
